@@ -174,6 +174,14 @@ def t4_cycles() -> Iterator[Dict[str, Any]]:
         yield project([mod("p", pkg=True), mod("a", 1, ops=a_ops), mod("b", 1, ops=b_ops)], "T4", late=late, cyclic=True)
     yield project([mod("p", pkg=True, ops=[frm("a", "A", lvl=1)]), mod("a", 1, ops=flat(frm("p", "helper"), cls("A"))),
                    mod("helper", 1, ops=flat(cls("H")))], "T4", pkgcycle=True, cyclic=True)
+    # a star import of a module that is still being analysed (it imports the star-importer in the middle of its body), and another
+    # star import of the same module once it is complete: what `import *` brings in is read each time, not remembered
+    yield project([mod("p", pkg=True),
+                   mod("errors", 1, ops=flat(cls("ProjError", "Exception", body=[fn("explain")]), frm("", "handlers", lvl=1),
+                                              cls("ParseError", "ProjError", body=[fn("position")]))),
+                   mod("handlers", 1, ops=flat(star("errors", lvl=1), cls("HandlerError", "ProjError"))),
+                   mod("parser", 1, ops=flat(star("errors", lvl=1), cls("TokenError", "ParseError", body=[fn("explain")]), cls("Token")))],
+                  "T4", starcycle=True, cyclic=True)
     # a module that does not parse in the middle of a chain
     yield project([mod("p", pkg=True), mod("a", 1, ops=flat(cls("A"))), mod("bad", 1, broken=True),
                    mod("c", 1, ops=flat(frm("bad", "Nope", lvl=1), frm("a", "A", lvl=1), cls("C", "A", "Nope")))], "T4", broken=True)
@@ -423,6 +431,18 @@ def t_c04_class_members() -> Iterator[Dict[str, Any]]:
                                                             cls("Outer", body=flat(cls("name", body=[fn("inouter")]), fn("tool"),
                                                                                    cls("Inner", body=flat(alias("al", "name"), alias("t", "tool"), cls("K", "name")))))))],
                   "C04", members="nested-class-scope")
+    # what the class BODY binds by an alias or an import comes before what the bases define (also through a subclass)
+    origin = mod("o", 1, ops=flat(cls("Thing", body=[fn("t")]), fn("helper"), cls("Codec", body=[fn("enc")])))
+    shadowed = flat(imp("p.o"), cls("Base", body=flat(fn("build"), fn("helper"), cls("Codec", body=[fn("base_enc")]), fn("kept"))),
+                    cls("C", "Base", body=flat(alias("build", "p.o.Thing"), frm("o", "helper", lvl=1), alias("Codec", "p.o.Codec"))),
+                    cls("E", "C"))
+    for where in ("same", "other"):
+        use = flat(cls("U1", "C.build"), cls("U2", "C.Codec"), alias("h", "C.helper"), alias("k", "C.kept"), cls("U3", "C.Codec"), alias("enc", "C.Codec.enc"))
+        if where == "same":
+            yield project([mod("p", pkg=True), origin, mod("m", 1, ops=flat(shadowed, use))], "C04", members="class-body-binding-shadows-inherited", where=where)
+        else:
+            yield project([mod("p", pkg=True), origin, mod("m", 1, ops=shadowed), mod("u", 1, ops=flat(frm("m", "C", lvl=1), use))],
+                          "C04", members="class-body-binding-shadows-inherited", where=where)
     chain = flat(cls("Base", body=flat(cls("In"), var("v"))), cls("Mid", "Base"), cls("Leaf", "Mid"))
     yield project([mod("p", pkg=True), mod("a", 1, ops=chain), mod("b", 1, ops=flat(frm("a", "Leaf", lvl=1), cls("X", "Leaf.In"), alias("vv", "Leaf.v")))],
                   "C04", members="chain")
@@ -515,6 +535,12 @@ def t15_rebinding() -> Iterator[Dict[str, Any]]:
             second = [mod("o", 1, ops=flat(cls("W", body=[fn("paint")]), fn("enc")))] if any(o.get("m") == ["o"] for o in ops) else []
             yield project([init, mod("b", 1, ops=flat(cls("W", body=[fn("draw")]), fn("enc")))] + second
                           + [mod("w", 1, ops=ops), mod("c", 1, ops=use)], "T15", shape=shape, reexport=reexport)
+            if not reexport:
+                # the same module seen through `from .w import *` (alone, and after a star import of the module w imports from)
+                suse = flat(star("w", lvl=1), alias("y", name)) + (cls("D", name) if name == "W" else [])
+                suse2 = flat(star("b", lvl=1), star("w", lvl=1), alias("y", name)) + (cls("D", name) if name == "W" else [])
+                yield project([init, mod("b", 1, ops=flat(cls("W", body=[fn("draw")]), fn("enc")))] + second
+                              + [mod("w", 1, ops=ops), mod("s", 1, ops=suse), mod("s2", 1, ops=suse2)], "T15", shape=shape, reexport=False, star=True)
 
 
 def t16_type_checking_cycle() -> Iterator[Dict[str, Any]]:
@@ -555,6 +581,17 @@ def t_c04_cycles() -> Iterator[Dict[str, Any]]:
         a_ops = flat(cls("A"), frm("b", "B", lvl=1), cls("A2", "B")) if late else flat(frm("b", "B", lvl=1), cls("A"), cls("A2", "B"))
         yield with_entries(project([mod("p", pkg=True), mod("a", 1, ops=a_ops), mod("b", 1, ops=flat(cls("B"), frm("a", "A", lvl=1), cls("B2", "A"))),
                                     mod("u", 1, ops=flat(frm("a", "A2", lvl=1), frm("b", "B2", lvl=1), cls("U", "A2", "B2")))], "C04c", shape="two-module-cycle", late=late, cyclic=True))
+    # a base that can only be resolved once the cycle is closed, and whose NAME is bound to something else further down: the base
+    # is what the name denoted when the class statement ran (by an import, by a class statement, by an alias; in a package too)
+    for how in ("import", "class", "alias"):
+        later = {"import": [frm("c", "Base")], "class": cls("Base", body=[fn("own")]), "alias": [alias("Base", "c.Base")]}[how]
+        pre = [imp("c")] if how == "alias" else []
+        yield with_entries(project([mod("a", ops=flat(imp("b"), cls("Base", body=[fn("x"), fn("only_in_a")]))),
+                                    mod("b", ops=flat(pre, frm("a", "Base"), cls("D", "Base"), later, cls("E", "Base"))),
+                                    mod("c", ops=flat(cls("Base", body=[fn("x")])))], "C04c", shape="cycle-then-rebound", how=how, cyclic=True))
+    yield with_entries(project([mod("p", pkg=True), mod("a", 1, ops=flat(frm("", "b", lvl=1), cls("Base", body=[fn("x")]))),
+                                mod("b", 1, ops=flat(frm("a", "Base", lvl=1), cls("D", "Base"), frm("c", "Base", lvl=1), cls("E", "Base"))),
+                                mod("c", 1, ops=flat(cls("Base", body=[fn("y")])))], "C04c", shape="cycle-then-rebound", how="import-in-package", cyclic=True))
     # module objects exchanged in a cycle (always importable): attribute access happens later, in class bases of a third module
     yield with_entries(project([mod("p", pkg=True), mod("a", 1, ops=flat(frm("", "b", lvl=1), cls("A"))), mod("b", 1, ops=flat(frm("", "a", lvl=1), cls("B"))),
                                 mod("u", 1, ops=flat(frm("", "a", lvl=1), frm("", "b", lvl=1), cls("U", "a.A", "b.B"), cls("V", "a.b.B", "b.a.A")))], "C04c", shape="module-cycle", cyclic=True))
